@@ -2,7 +2,7 @@
 import vcheck as V
 from props import common
 
-THEOREMS = ["C05_holds", "C05_holds_minimal", "C05_panic", "C05_price_bound_needed", "C05_headroom_needed"]
+THEOREMS = ["C05_holds_closed", "C05_holds_closed_end", "C05_holds_small_balance", "C05_holds", "C05_holds_minimal", "C05_panic", "C05_price_bound_needed", "C05_headroom_needed"]
 
 
 def run(ctx):
